@@ -16,6 +16,7 @@ from vx.rustcut import CutError, code_mask, match_close
 from vx.units._visit import spec_trait, opaque
 
 PROPS = ['C17']
+RLIMIT = 60
 T = 'duke/src/tree/'
 V = 'duke/src/visitor/'
 R = 'duke/src/class_reader.rs'
